@@ -60,16 +60,64 @@ def run(model: Model, rep: Report, tier: str) -> None:
         "domains is chosen (open in the source), nor termination."
     )
     rep.trusted_base = ["Tikka & Karvanen 2018 (soundness of TRSO)", "C04 separation oracle", "C14 graph primitives", "copy.deepcopy returns an independent object"]
-    rep.floors = {"R5.0": 2, "R5.1": 6, "R5.2": 2, "R5.3": 3, "R5.6": 8, "R5.7": 1, "R6.2": 5, "R6.3": 5}
+    rep.floors = {"R5.0": 2, "R5.1": 6, "R5.2": 2, "R5.3": 4, "R5.6": 8, "R5.7": 1, "R6.2": 5, "R6.3": 5}
     sa = SetAlg(rewrite=rewriter(graph_rewrite, _regular_rewrite))
     n = var("%n")
-    r5_0(model, rep, sa, n)
+    r5_helpers(model, rep)
     r5_1(model, rep, sa, n)
-    r5_2(model, rep, sa, n)
-    r5_3(model, rep, sa, n)
     r5_6(model, rep)
     c06.r6_2(model, rep)
     c06.r6_3(model, rep)
+
+
+def r5_helpers(model, rep) -> None:
+    """Every helper step of TRSO against its definition written out in yv/refs/c05_ref.py (and the transport diagram against c06_ref): where
+    the selection nodes point, the line-6 gate and sub-query, the record updates of lines 3 / 4 / 10 on a deep copy, line 9's c-factor."""
+    from .. import nxden
+    from ..refcmp import load_reference, run_table
+    from .dslcommon import DSL_PRIMS
+
+    for name, fn in (("yvref.c05", "c05_ref.py"), ("yvref.c06", "c06_ref.py")):
+        if name not in model.modules:
+            load_reference(model, name, fn)
+    V = ("cls", VARIABLE)
+    G = ("cls", NXMG)
+    VS = ("set", V)
+    Q = ("cls", f"{T}.TRSOQuery")
+    POP = ("cls", "y0.dsl.Population")
+    CI_ = "y0.algorithm.conditional_independencies.are_d_separated"
+    H = {f"{T}.get_transport_nodes", f"{T}.get_regular_nodes", f"{T}.is_transport_node", f"{T}._upgrade_variables", "y0.dsl._upgrade_variables", CI_,
+         "y0.mutate.canonicalize_expr.canonicalize"}
+
+    def mk(model_, prims):
+        return lambda: Evaluator(model_, primitives=set(GRAPH_PRIMS) | set(DSL_PRIMS) | set(prims), prim_methods={"__mul__", "__truediv__", "__or__", "simplify", "intervene"})
+
+    table = [
+        ("R5.0", f"{T}.get_nodes_to_transport", "nodes_to_transport", {"surrogate_interventions": VS, "surrogate_outcomes": VS, "graph": G}, H, "selection-nodes",
+         "(De(Z_i) ∖ W_i) ∪ (C(W_i) ∖ An(W_i) in G with the edges into Z_i removed)"),
+        (("R5.2", f"{T}._line_6_helper", "line_6_for_domain", {"query": Q, "domain": POP, "graph": G}, H | {f"{T}.all_transports_d_separated"}, "gate-and-subquery",
+          "usable iff Z_i ∩ X ≠ ∅ and the separation gate holds; then, on a deep copy: X ∖ Z_i, the domain activated, its diagram minus Z_i ∩ X, active interventions Z_i ∩ X")
+         if model.has_func(f"{T}._line_6_helper") else
+         # the per-domain step is not a routine of its own (any more): line 6 as a whole, with the definition's per-domain step written out
+         ("R5.2", f"{T}.trso_line6", "line_6", {"query": Q}, H | {f"{T}.all_transports_d_separated"}, "gate-and-subquery",
+          "for every source domain: usable iff Z_i ∩ X ≠ ∅ and the separation gate holds; then, on a deep copy: X ∖ Z_i, the domain activated, its diagram minus Z_i ∩ X")),
+        ("R5.2", f"{T}.all_transports_d_separated", "transports_separated", {"graph": G, "target_interventions": VS, "target_outcomes": VS}, H, "separation-gate",
+         "EVERY selection node is separated from EVERY outcome given X in the diagram with the edges into X removed"),
+        ("R5.3", f"{T}.trso_line9", "line_9", {"query": Q, "district": VS}, H, "c-factor",
+         "Π over the district of (Σ_{after v} P / Σ_{v and after} P) in topological order without selection nodes, summed over the district's non-outcomes"),
+        ("R5.3", f"{T}.trso_line10", "line_10", {"query": Q, "district": VS, "new_surrogate_interventions": ("dict", POP, VS)}, H, "line10-factors",
+         "on a deep copy: X ∩ S', Π_{v∈S'} P(v | predecessors) in the active domain, G[S'], the updated experiment table"),
+        ("R5.3", f"{T}.trso_line3", "line_3", {"query": Q, "additional_interventions": VS}, H, "line3-update", "a deep copy with the extra interventions added, nothing else"),
+        ("R5.3", f"{T}.trso_line4", "line_4", {"query": Q, "components": ("iter", ("frozenset", V))}, H, "line4-subproblems",
+         "one deep copy per district: outcomes = the district, interventions = every other regular node"),
+    ]
+    run_table(model, rep, table, "yvref.c05", mk, SetAlg(rewriter(graph_rewrite)), construct=construct, loc=loc)
+    run_table(model, rep, [
+        ("R5.0", f"{T}.create_transport_diagram", "transport_diagram", {"graph": G, "nodes_to_transport": ("iter", V)},
+         {f"{T}.create_transport_diagram", f"{T}.get_nodes_to_transport", f"{T}.transport_variable"}, "selection-diagram",
+         "the graph (all nodes, directed and bidirected edges) plus one transport node T_v -> v per variable to transport"),
+    ], "yvref.c06", lambda m_, prims: (lambda: Evaluator(m_, primitives=set(GRAPH_PRIMS) | set(prims), prim_methods={"add_node", "add_directed_edge", "add_undirected_edge"})),
+        SetAlg(rewriter(graph_rewrite)), construct=construct, loc=loc, post=nxden.post)
 
 
 def r5_0(model, rep, sa, n):
@@ -432,7 +480,7 @@ def r5_3(model, rep, sa, n):
 
 def r5_6(model, rep):
     eff = Effects(model)
-    for fn in ("trso", "trso_line1", "trso_line2", "trso_line3", "trso_line4", "trso_line6", "_line_6_helper", "trso_line9", "trso_line10",
+    for fn in ("trso", "trso_line1", "trso_line2", "trso_line3", "trso_line4", "trso_line6", *(("_line_6_helper",) if model.has_func(f"{T}._line_6_helper") else ()), "trso_line9", "trso_line10",
                "activate_domain_and_interventions", "all_transports_d_separated", "identify_target_outcomes", "surrogate_to_transport",
                "create_transport_diagram", "get_nodes_to_transport"):
         f = model.func(f"{T}.{fn}")
